@@ -1,4 +1,5 @@
 """C05 — event queues: one event per step, internal first, FIFO, delays respected."""
+import copy
 from sismic.model import BasicState, CompoundState, Statechart
 
 from .. import gen, oracles
@@ -188,6 +189,9 @@ class C05(InterpProp):
                     # several events in one call of queue(), given by name and as Event instances, in that order
                     more = [{'ev': rnd.choice(gen.EVENTS), 'data': [['v', rnd.randint(0, 4)], ['b', rnd.random() < 0.5]] +
                              ([['delay', rnd.randint(0, 3)]] if rnd.random() < 0.3 else [])} for _ in range(rnd.randint(1, 2))]
+                    if rnd.random() < 0.4:
+                        # ... one of them twice: given as an instance it is the very same Event object, queued twice
+                        more.insert(rnd.randrange(len(more) + 1), copy.deepcopy(rnd.choice([{'ev': name, 'data': data}] + more)))
                     op = gen.queue_many(rnd, 0, [{'ev': name, 'data': data}] + more)
                     for e in op[2]:
                         dues.append(t + ev_delay(e))
